@@ -25,7 +25,9 @@ SPEC = common.SPEC
 OPTIONAL = ("name", "arg_index", "signature")
 
 
-SIGKINDS = ["positional", "name", "kwonly", "varkw", "object", "partial"]
+# same parameter NAMES with different KINDS sit next to each other (name / posonly, varkw / varpos): a cache key or a
+# signature lookup that forgets the kind reuses the calling convention of the neighbour
+SIGKINDS = ["positional", "name", "posonly", "kwonly", "varkw", "varpos", "object", "partial"]
 
 
 class Recorder:
@@ -47,6 +49,16 @@ def make_factory(kind, rec, i, value_fn):
             log(shape, {} if name is None else {"name": name})
             return value_fn(shape)
         return f, ["name"]
+    if kind == "posonly":
+        def f(shape, name=None, /):           # 'name' cannot be passed by keyword: it is not one of the declared optional keywords
+            log(shape, {} if name is None else {"name": name})
+            return value_fn(shape)
+        return f, []
+    if kind == "varpos":
+        def f(shape, *kw):
+            log(shape, {"positional-extra": 1} if kw else {})
+            return value_fn(shape)
+        return f, []
     if kind == "kwonly":
         def f(shape, *, arg_index=None):
             log(shape, {} if arg_index is None else {"arg_index": arg_index})
@@ -77,6 +89,27 @@ def make_factory(kind, rec, i, value_fn):
         def f(shape):
             log(shape, {})
             return [[1.0]]
+        return f, []
+    if kind == "wrongduck":
+        class Duck:                           # not a tensor of the backend, although it has .shape and converts to an array
+            def __init__(self, a):
+                self.a = a
+                self.shape = a.shape
+                self.dtype = a.dtype
+                self.ndim = a.ndim
+
+            def __array__(self, dtype=None, copy=None):
+                return self.a
+
+        def f(shape):
+            log(shape, {})
+            return Duck(np.asarray(value_fn(shape)))
+        return f, []
+    if kind == "wrongscalar":
+        def f(shape):
+            log(shape, {})
+            v = np.asarray(value_fn(shape))
+            return v.reshape(-1)[0] if v.size == 1 and v.ndim == 0 else memoryview(np.ascontiguousarray(v))    # numpy scalar / buffer, not ndarray
         return f, []
     raise KeyError(kind)
 
@@ -147,7 +180,7 @@ def run_item(it):
                     findings.append({"kind": "factory-result-differs", "detail": "%s call: result differs from passing the produced tensors directly" % label})
             # same call again with factories of OTHER signatures at the same positions: the cached code of the first
             # signature must not be reused for them
-            other = {i: SIGKINDS[(SIGKINDS.index(good[i]) + 1 + 2 * n) % len(SIGKINDS)] for n, i in enumerate(positions)}
+            other = {i: SIGKINDS[(SIGKINDS.index(good[i]) + 1 + 3 * n) % len(SIGKINDS)] for n, i in enumerate(positions)}
             r, ok, exc = one("run", other, label="other-signature")
             ncalls += 1
             if not ok:
@@ -161,7 +194,7 @@ def run_item(it):
                 if ok:
                     findings.append({"kind": "underdetermined-accepted", "detail": "all tensors are factories and no sizes given, yet the call returned"})
             # wrong return values must make the call fail
-            for bad in ("wrongshape", "wrongtype"):
+            for bad in ("wrongshape", "wrongtype", "wrongduck", "wrongscalar"):
                 kinds = dict(good)
                 kinds[positions[0]] = bad
                 rec_before = len(traces)
